@@ -81,7 +81,7 @@ def udpOp (u : USt) (op : String) : Option USt :=
       if j < u.w.socks.length then
         match u.w.socks[i]? with
         | some s =>
-          if s.kind = .raw then
+          if s.kind = .raw ∧ s.alive then
             let w' := rawSend u.w i j (udpPayload n seed)
             let st := match w'.log.getLast? with
               | some r => stStr r.status
@@ -92,6 +92,14 @@ def udpOp (u : USt) (op : String) : Option USt :=
       else none
     | _ => none
   | "w" => if rest = "" then some { u with w := pollAll u.w } else none
+  | "k" =>   -- a raw peer goes away (its address stays reserved)
+    match rest.toNat?, rest.toNat?.bind (fun j => u.w.socks[j]?) with
+    | some j, some s => if s.kind = .raw ∧ s.alive then some { u with w := step u.w (.close j) } else none
+    | _, _ => none
+  | "o" =>   -- … and comes back on the same address
+    match rest.toNat?, rest.toNat?.bind (fun j => u.w.socks[j]?) with
+    | some j, some s => if s.kind = .raw ∧ !s.alive then some { u with w := step u.w (.reopen j) } else none
+    | _, _ => none
   | _ => none
 
 def udpRun (ops : List String) : Option USt :=
